@@ -225,6 +225,18 @@ class Creators:
             gfa_line = None
           if gfa_line is None:
             raise
+        if self._vlevel == 0 and gfa_line.version == "gfa1":
+          # (nothing was checked: the same decision as at the other levels)
+          try:
+            gfapy.Line(string, vlevel=1, dialect=self._dialect)
+          except gfapy.FormatError:
+            try:
+              gfa_line = gfapy.Line(string, vlevel=1, version="gfa2",
+                                    dialect=self._dialect)
+            except gfapy.Error:
+              pass
+          except gfapy.Error:
+            pass
       else:
         gfa_line = gfapy.Line(gfa_line, vlevel=self._vlevel,
             dialect=self._dialect, version="gfa1")
